@@ -304,9 +304,54 @@ pub fn exhaustive_reader(s: &mut Sess, tier: &str, with_aut: bool) {
     }
 }
 
+/// Bounds that leave the key tree at a node, for every byte value, at nodes of several widths whose
+/// transitions have gaps (the next greater transition may be any byte, incl. 0xFF; there may be none).
+fn bounds_leaving_nodes(s: &mut Sess, r: &mut StdRng) {
+    let widths: &[usize] = &[1, 2, 5, 31, 32, 33, 40, 100, 255];
+    for (wi, &w) in widths.iter().enumerate() {
+        for &(prefix, top) in &[(&b""[..], 0xFFu8), (&b"ab"[..], 0xFF), (&b"q"[..], 0xF0)] {
+            // w - 1 low bytes starting at 2 (step 1 or 2), a gap, then `top`
+            let step = if w <= 100 { 2 } else { 1 };
+            let mut bytes: Vec<u8> = (0..w.saturating_sub(1)).map(|i| (2 + i * step) as u8).filter(|&b| b < top).collect();
+            bytes.push(top);
+            let mut keys: Vec<Vec<u8>> = vec![];
+            for &b in &bytes {
+                let mut k = prefix.to_vec();
+                k.push(b);
+                keys.push(k.clone());
+                if b == top || b % 7 == 2 {
+                    k.push(1);
+                    keys.push(k);
+                }
+            }
+            keys.sort();
+            keys.dedup();
+            let items = assign(keys, if wi % 2 == 0 { ValMode::Index } else { ValMode::Zero }, r);
+            s.reset();
+            let f = match s.build(Front::MapInsert, &items, None) {
+                Some(f) => f,
+                None => continue,
+            };
+            for b in 0..=255u8 {
+                let mut k = prefix.to_vec();
+                k.push(b);
+                let kind = if b % 2 == 0 { "ge" } else { "gt" };
+                let limit = if w >= 100 { 6 } else { usize::MAX };
+                s.stream(f, *pick(r, &["raw", "map", "set"]), &[(kind.to_string(), k.clone())], None, false, limit);
+                if b % 16 == 15 || b >= 0xEE {
+                    let other = if kind == "ge" { "gt" } else { "ge" };
+                    k.push(0);
+                    s.stream(f, "raw", &[(other.to_string(), k)], None, false, limit);
+                }
+            }
+        }
+    }
+}
+
 pub fn c03(s: &mut Sess, seed: u64, tier: &str) {
     let mut r = rng(seed, 3);
     exhaustive_reader(s, tier, false);
+    bounds_leaving_nodes(s, &mut r);
     let ins = inputs(&mut r, tier, true);
     for (_name, keys) in ins {
         let big = keys.len() > 2000;
